@@ -112,7 +112,8 @@ let repaired =
 (* ---------- "re-indexes by merged developer identity": the identity table must group exactly the identities that
    are connected by shared names / e-mails.  Two independent judges:
    (a) the executable statements of C16 (coq/theories/Plumbing/IdentityMerge.v: mtotal_okb, mcomponents_okb,
-       munion_okb, proved sound in C16_oracle_*_sound), extracted into this driver, for up to 100 identities;
+       munion_okb, proved sound in C16_oracle_*_sound), extracted into this driver: always up to 12 identities, every third case up to 26 and every sixteenth up to 44
+       (their cost grows with the fourth power of the number of identities);
    (b) a union-find over the parts written here, for every size.
    Both only inside the domain where every part occurs in at most one entry of each list (outside: finding F7 of C16). *)
 let parts_of (s : string) = String.split_on_char '|' s
@@ -180,7 +181,8 @@ let judge_identity_table id (an : string) (rd1 : z list list) (rd2 : z list list
     (match components_judge s1 s2 tab (List.map string_of_name merged) with
      | Some what -> failed := true; propfail id (clause ^ what)
      | None -> ());
-    if List.length rd1 + List.length rd2 <= 100 then begin
+    let nids = List.length rd1 + List.length rd2 in
+    if nids <= 12 || (nids <= 26 && id mod 3 = 0) || (nids <= 44 && id mod 16 = 0) then begin
       count "idtab_judged_by_C16_oracles";
       let idx = List.map (fun (k, e) -> (k, ((e.final, e.first), e.second))) people in
       if not !failed then begin
